@@ -434,6 +434,9 @@ def reduce_anyall(interp, v, axis, which):
 
     instantiate(interp.ctx, root.u)
     instantiate(interp.ctx, root.u2)
+    if not keyed:
+        for r in getattr(interp, "ghost_rows", []):  # rows the harness declared worth instantiating at
+            instantiate(interp.ctx, r)
     out = V(b)
     out.meta = (which, dict(which=which, instantiate=instantiate, witness=w, root=root, b=b))
     interp.ctx.__dict__.setdefault("_anyall", []).append(out.meta[1])
@@ -500,14 +503,16 @@ def lemma_sum_empty(ctx, d, name="sum_empty"):
 
 
 def sum_nonzero_witness(ctx, d, subs=()):
-    """contrapositive of sum_empty with a Skolem witness: a sum that is not 0 has a row in its domain.
-    `subs` instantiates the sum's parameters (group keys).  Returns the witness row (an Int constant)."""
-    _use("sum_empty (contrapositive: a non-zero sum has a row in its domain)")
+    """contrapositive of "a sum of zeros is zero" with a Skolem witness: a sum that is not 0 has a row in its domain
+    whose summand is not 0 (Finset.exists_ne_zero_of_sum_ne_zero).  `subs` instantiates the sum's parameters (group
+    keys).  Returns the witness row (an Int constant)."""
+    _use("sum_empty (contrapositive: a non-zero sum has a row in its domain with a non-zero summand)")
     sp = d.space
     w = z3.Int(fresh_name("sumwit"))
     sym = z3.substitute(d.sym, *subs) if subs else d.sym
     dom = z3.substitute(d.dom, (sp.u, w), *subs)
-    ctx.assume(z3.Implies(sym != 0, z3.And(w >= 0, w < sp.n, dom)))
+    nz = z3.substitute(d.summand, (sp.u, w), *subs) != 0
+    ctx.assume(z3.Implies(sym != 0, z3.And(w >= 0, w < sp.n, dom, nz)))
     return w
 
 
